@@ -43,6 +43,12 @@ int main(int argc, char** argv) {
         bool quat = matter.isUsingQuaternion(s, mb.getMobilizedBodyIndex());
         // coordinates: angles in +-[0.1,1.2] (Euler middle angle |q1| <= 1.2 keeps |cos q1| > 0.36), translations likewise
         for (int i = 0; i < nq; ++i) s.updQ()[i] = r.U(0.1, 1.2) * (r.I(0, 1) ? 1 : -1);
+        // half of the cases: the rotational coordinates other than an Euler middle angle range over +-[0.25,3.0]
+        // (all four quadrants, so every branch of the atan2-based fitters is exercised)
+        if (r.I(0, 1) == 1 && !quat) {
+            static const int wideIdx[17][3] = { {0,-1,-1}, {-1,-1,-1}, {0,-1,-1}, {0,-1,-1}, {0,-1,-1}, {0,-1,-1}, {0,2,-1}, {0,2,-1}, {0,2,-1}, {0,2,-1},
+                                                {-1,-1,-1}, {0,-1,-1}, {0,2,-1}, {0,2,-1}, {0,2,-1}, {0,1,-1}, {-1,-1,-1} };
+            for (int j = 0; j < 3; ++j) if (wideIdx[type][j] >= 0 && wideIdx[type][j] < nq) s.updQ()[wideIdx[type][j]] *= 2.5; }
         if (quat) { Vec4 e(r.U(-1, 1), r.U(-1, 1), r.U(-1, 1), r.U(-1, 1)); if (e.norm() < 0.2) e = Vec4(1, 0, 0, 0); e = e / e.norm(); for (int i = 0; i < 4; ++i) s.updQ()[i] = e[i]; }
         for (int i = 0; i < nu; ++i) s.updU()[i] = r.U(-1, 1);
         sys.realize(s, Stage::Velocity);
